@@ -117,10 +117,56 @@ func referencePass(pool []*c14sim.Key, poolPath string, parallel int) (excluded 
 			k.RefOK = true
 		}
 	}
+	// The reference is itself an observation of the property: two lone first calls with the same key in two
+	// fresh processes must agree. (Per-process randomness — hash seeds, addresses, map iteration order —
+	// shows here without any schedule at all.)
+	var again []*drv.Job
+	var idx []int
+	for i, k := range pool {
+		if !k.RefOK {
+			continue
+		}
+		kb, _ := json.Marshal(&c14sim.Key{ID: k.ID, API: k.API, Source: k.Source, Params: k.Params, Extra: k.Extra})
+		again = append(again, &drv.Job{Name: fmt.Sprint(k.ID), Argv: []string{*refBin}, Stdin: kb, Timeout: 10 * time.Second, Dir: *work})
+		idx = append(idx, i)
+	}
+	drv.RunPool(again, parallel, nil, nil)
+	for n, j := range again {
+		k := pool[idx[n]]
+		if !j.TimedOut && j.ExitCode == 0 && string(j.Stdout) != k.Ref {
+			loneDisagree = append(loneDisagree, &finding{Class: "lone-calls-disagree", Pool: []*c14sim.Key{k},
+				Detail: fmt.Sprintf("two lone first calls with the same source and parameters, each in a fresh process, gave different results:\n      %s\n      %s", clip(k.Ref, 600), clip(string(j.Stdout), 600))})
+		}
+	}
 	if err := drv.WriteJSON(poolPath, pool); err != nil {
 		fatal("%v", err)
 	}
 	return excluded
+}
+
+// loneDisagree collects keys whose reference is not a function of the key (filled by referencePass).
+var loneDisagree []*finding
+
+// refsDisagree runs n lone first calls of key k in fresh processes and reports two differing results, if any.
+func refsDisagree(k *c14sim.Key, n, parallel int) (bool, string, string) {
+	kb, _ := json.Marshal(&c14sim.Key{ID: k.ID, API: k.API, Source: k.Source, Params: k.Params, Extra: k.Extra})
+	var jobs []*drv.Job
+	for i := 0; i < n; i++ {
+		jobs = append(jobs, &drv.Job{Name: fmt.Sprint(i), Argv: []string{*refBin}, Stdin: kb, Timeout: 10 * time.Second, Dir: *work})
+	}
+	drv.RunPool(jobs, parallel, nil, nil)
+	first, have := "", false
+	for _, j := range jobs {
+		if j.TimedOut || j.ExitCode != 0 {
+			continue
+		}
+		if !have {
+			first, have = string(j.Stdout), true
+		} else if string(j.Stdout) != first {
+			return true, first, string(j.Stdout)
+		}
+	}
+	return false, "", ""
 }
 
 func firstLine(s string) string {
@@ -556,6 +602,7 @@ func main() {
 	if err != nil {
 		fatal("%v", err)
 	}
+	a.found = append(a.found, loneDisagree...)
 	sort.SliceStable(a.found, func(i, j int) bool { return a.found[i].ProcSeed < a.found[j].ProcSeed })
 	seen := map[string]bool{}
 	reported, known := 0, 0
@@ -624,6 +671,9 @@ func main() {
 func describe(rf *ReplayFile) {
 	n := len(rf.Runs)
 	if n == 0 {
+		for _, k := range rf.Pool {
+			fmt.Printf("    %s(%q) params=%v\n", k.API, clip(k.Source, 100), k.Params)
+		}
 		return
 	}
 	last := rf.Runs[n-1]
@@ -673,6 +723,11 @@ func replayKey(rf *ReplayFile) string {
 				fmt.Fprintf(h, "%s|%s|", k.Sig(), cs.Form)
 			}
 			fmt.Fprint(h, "/")
+		}
+	}
+	if n == 0 {
+		for _, k := range rf.Pool {
+			fmt.Fprintf(h, "%s|", k.Sig())
 		}
 	}
 	fmt.Fprintf(h, "runs=%d", n)
